@@ -283,6 +283,9 @@ func MultipleOf(path, in string, data, factor float64) *errors.Validation {
 	if factor <= 0 {
 		return errors.MultipleOfMustBePositive(path, in, factor)
 	}
+	if data == 0 {
+		return nil // zero is a multiple of every factor (and 1/factor*0 is not a number for a tiny factor)
+	}
 	var mult float64
 	if factor < 1 {
 		mult = 1 / factor * data
@@ -297,16 +300,20 @@ func MultipleOf(path, in string, data, factor float64) *errors.Validation {
 
 // isIntegerQuotient tells whether a quotient is an integer, up to the accuracy of float64 arithmetic.
 //
-// The quotient of two decimal fractions may come out just below an integer (e.g. 0.29 / 0.01 yields
-// 28.999999999999996): such a value is a multiple, just like one that comes out just above.
+// The quotient of two decimal fractions carries the rounding errors of their binary representations and
+// of the division, a few units in the last place: 0.29 / 0.01 yields 28.999999999999996, which is a
+// multiple. A fixed relative tolerance would not do: 4000000001 / 2 is 2000000000.5, which is not.
 func isIntegerQuotient(q float64) bool {
-	if swag.IsFloat64AJSONInteger(q) {
+	if math.IsNaN(q) || math.IsInf(q, 0) {
+		return false
+	}
+	r := math.Round(q)
+	if q == r {
 		return true
 	}
-	const epsilon = 1e-9 // the relative tolerance swag.IsFloat64AJSONInteger applies above an integer
-	r := math.Round(q)
+	const tolerance = 8.0 / (1 << 52) // eight units in the last place of a float64, as a relative error
 
-	return r != 0 && !math.IsInf(r, 0) && math.Abs(q-r) < epsilon*math.Abs(r)
+	return math.Abs(q-r) <= tolerance*math.Abs(r)
 }
 
 // MultipleOfInt validates if the provided integer is a multiple of the factor
